@@ -20,7 +20,7 @@ META = {
         "alphabet containing space, comma, equals, double and single quote, backslash, non-ASCII "
         "and emoji; int/float/bool fields; whitelist given as set/list/dict of defaults with "
         "str and non-str default and record tag values; integer resolutions 1..10^4 or none; "
-        "sequences of 1-4 records through the same formatter instance; JSON: nested payloads, "
+        "sequences of 1-4 records through the same formatter instance; JSON: nested payloads, a fifth of them with object keys that are not strings (int, float, bool, null: e.g. a histogram), "
         "defaults, time enabled/disabled/custom format. Non-trivial = at least one special "
         "character or a tag or a timestamp is involved; distinct by content."
     ),
@@ -321,10 +321,42 @@ def gen_json_value(rnd, depth=0):
     return rnd.choice([True, False, None])
 
 
+NONSTRING_KEYS = [7, 1000, -3, 2.5, True, None, 10**15]  # JSON object keys json.dumps accepts besides strings
+
+
+def json_key(key):
+    """What a key looks like once it went through JSON."""
+    if key is True:
+        return "true"
+    if key is False:
+        return "false"
+    if key is None:
+        return "null"
+    if isinstance(key, (int, float)):
+        return repr(key)
+    return key
+
+
+def json_normal(value):
+    if isinstance(value, dict):
+        return {json_key(k): json_normal(v) for k, v in value.items()}
+    if isinstance(value, list):
+        return [json_normal(v) for v in value]
+    return value
+
+
 def gen_json_case(rnd, spec):
+    odd_keys = rnd.random() < 0.2  # a histogram {1: 12, 2: 4}, a flag table {True: ..}
+
     def mapping(lo, hi):
         keys = [rnd.choice(["message", "time", "a", "b", "latitude"]) if rnd.random() < 0.25 else gen_text(rnd, 0, 6, 0.3, "fieldvalue") for _ in range(rnd.randint(lo, hi))]
-        return [[k, gen_json_value(rnd)] for k in dict.fromkeys(keys)]
+        if odd_keys:
+            keys += rnd.sample(NONSTRING_KEYS, rnd.randint(1, 3))
+            rnd.shuffle(keys)
+        out = [[k, gen_json_value(rnd)] for k in dict.fromkeys(keys)]
+        if odd_keys and rnd.random() < 0.5:
+            out.append(["histogram", {k: rnd.randint(0, 50) for k in rnd.sample(NONSTRING_KEYS + ["s"], rnd.randint(1, 4))}])
+        return out
 
     return {
         "kind": "json",
@@ -346,7 +378,7 @@ def exec_json(case, result):
     except Exception as err:
         return [("constructing the formatter raised %r" % (err,), None)]
     problems = []
-    keep_defaults = json.dumps(defaults, sort_keys=True)
+    keep_defaults = repr(defaults)
     for idx, rec in enumerate(case["records"]):
         payload = {k: v for k, v in rec["payload"]}
         record = logging.LogRecord("cobald.monitor", logging.INFO, __file__, 1, rec["name"], (payload,), None)
@@ -372,9 +404,12 @@ def exec_json(case, result):
             result.count("json_records_without_time")
         want["message"] = rec["name"]
         want.update(payload)
+        if any(not isinstance(k, str) for k in want) or any(isinstance(v, dict) and any(not isinstance(k, str) for k in v) for v in want.values()):
+            result.count("json_records_with_keys_that_are_not_strings")
+        want = json_normal(want)
         if decoded != want or not isinstance(decoded, dict):
             problems.append(("record %d: decodes to %r, expected %r" % (idx, decoded, want), None))
-        if json.dumps(defaults, sort_keys=True) != keep_defaults:
+        if repr(defaults) != keep_defaults:
             problems.append(("record %d: formatting modified the configured defaults" % idx, None))
     return problems
 
@@ -399,6 +434,6 @@ def run_shard(spec):
 
 def finish(total, tier):
     for name in ("line_records", "line_records_with_tags", "line_records_with_special_chars", "line_records_with_timestamp",
-                 "json_records", "json_records_with_time", "json_records_without_time"):
+                 "json_records", "json_records_with_time", "json_records_without_time", "json_records_with_keys_that_are_not_strings"):
         if not total.counters.get(name) and not total.violations:
             total.inconc("monitor never observed: " + name)
